@@ -59,13 +59,24 @@ def load_json(path, default):
         return default
 
 
+def flatten(res: list) -> list:
+    """a case may stand for a small batch (`{"multi": [records…]}`)"""
+    out = []
+    for r in res:
+        if isinstance(r, dict) and "multi" in r:
+            out.extend(r["multi"])
+        else:
+            out.append(r)
+    return out
+
+
 def component_results(comp: str, tier: str) -> dict:
     mod = importlib.import_module(COMPONENTS[comp])
 
     def compute():
         t0 = time.time()
         cases = mod.cases(tier)
-        res = core.pmap(COMPONENTS[comp], "run_case", cases, {"tier": tier}, chunk=getattr(mod, "CHUNK", 50))
+        res = flatten(core.pmap(COMPONENTS[comp], "run_case", cases, {"tier": tier}, chunk=getattr(mod, "CHUNK", 50)))
         return {"results": res, "wall_s": time.time() - t0}
 
     return core.cached(comp, tier, compute)
@@ -101,7 +112,7 @@ def extended_search(prop: str, comp: str, mod, tier: str, failing: list) -> dict
         os.environ["VERIF_SEED"] = str(base + 1000 * k)
         try:
             cases = mod.cases(tier)
-            res = core.pmap(COMPONENTS[comp], "run_case", cases, {"tier": tier}, chunk=getattr(mod, "CHUNK", 50))
+            res = flatten(core.pmap(COMPONENTS[comp], "run_case", cases, {"tier": tier}, chunk=getattr(mod, "CHUNK", 50)))
         finally:
             os.environ["VERIF_SEED"] = str(base)
         for r in res:
